@@ -12,7 +12,7 @@ import (
 func init() {
 	Register(&Spec{
 		ID:          "C19",
-		Explanation: "Decides structural necessary conditions of pogs agreeing with generated accessors: (R1) sibling table: in pogs.extractField, pogs.insertField and text.marshalFieldValue every struct accessor sits under the schema type case whose width and offset scale the encoding prescribes (bool: bit offset; 8/16/32/64-bit data: offset*1/2/4/8 with the accessor of that width; enum: 16 bit; text/data/list/struct/interface/anyPointer: pointer slot), every type has a case, data fields are XORed with the default, and insert's bounds predicate isFieldInBounds uses the same widths; (R2) union discipline: extractStruct and insertStruct reach a field access only for dv == noDiscriminant or dv == discriminant, insertField is guarded by isFieldInBounds, and the discriminant is written through SetUint16 at DiscriminantOffset*2; (R3) the schema message cached by nodemap has its traversal budget lifted (shared with C20). Does NOT decide round-trip equality nor Go-struct tag/embedding resolution semantics.",
+		Explanation: "Decides structural necessary conditions of pogs agreeing with generated accessors: (R1) sibling table: in pogs.extractField, pogs.insertField and text.marshalFieldValue every struct accessor sits under the schema type case whose width and offset scale the encoding prescribes (bool: bit offset; 8/16/32/64-bit data: offset*1/2/4/8 with the accessor of that width; enum: 16 bit; text/data/list/struct/interface/anyPointer: pointer slot), every type has a case, data fields are XORed with the default, and insert's bounds predicate isFieldInBounds uses the same widths; (R2) union discipline: extractStruct and insertStruct reach a field access only for dv == noDiscriminant or dv == discriminant, insertField is guarded by isFieldInBounds, and the discriminant is written through SetUint16 at DiscriminantOffset*2; (R3) the schema message cached by nodemap has its traversal budget lifted (shared with C20), assigned before the first read; (R5) no append in pogs whose result is not assigned back to its argument or built on a fresh slice (field paths of sibling fields must not share a backing array); (R6) the work list of embedded Go structs is consumed from the front, so embedding levels are visited breadth-first and the least nested field wins; (R2g) an empty Go string over a non-empty schema default is stored with SetNewText. Does NOT decide round-trip equality nor Go-struct tag/embedding resolution semantics.",
 		Run:         runC19,
 	})
 }
@@ -26,7 +26,11 @@ func runC19(ctx *Ctx) {
 	ruleUnionGuard(ctx, "C19-R2", "pogs.(*inserter).insertStruct", []string{"pogs.(*inserter).insertField", "pogs.(*inserter).insertStruct"})
 	ruleAnchorSpecs(ctx, "C19-R2g", []anchorSpec{
 		{"pogs.(*inserter).insertField", "pogs.isFieldInBounds", 1, []string{"Size(p1)", "Offset(Slot(p2))", ""}, nil, "insertField asks isFieldInBounds with the struct's size and the field's slot offset"},
+		{"pogs.(*inserter).insertField", "capnp.(Struct).SetNewText", 1, []string{"p1", "uint16(Offset(Slot(p2)))", "<str>"},
+			[]string{"!isEmptyValue(DefaultValue(Slot(p2))#0)", "0:int == Len(p3)", "12:schema.Type_Which == Which(Type(Slot(p2))#0)"},
+			"an empty Go string over a non-empty schema default is stored as an allocated empty text (a null pointer would read back as the default)"},
 	})
+	ruleEmbedQueueFIFO(ctx, "C19-R6")
 	ruleInsertGuard(ctx, "C19-R2b")
 	ruleCachedBudget(ctx, "C19-R3")
 	ruleAppendNoAlias(ctx, "C19-R5", "pogs")
